@@ -7,7 +7,8 @@
    and for ANY function H in the place of SHA-256 and ANY function [render] in the place of encoding/json's
    printing of a JSON value (nothing is assumed about either).
    [fixed] is the tree with the repairs "fix: log: DELETE_METADATA ..." and "fix: log: transaction target id ...". *)
-From FL Require Import LogCodec.Model LogCodec.Proofs.
+From FL Require Import LogCodec.Model LogCodec.Proofs LogCodec.Order.
+From Coq Require Import Permutation.
 
 (* round trip through the JSON form, for every entry: all five payload kinds on both target types, any amounts,
    ids and reverted ids in Z, any strings, nil / empty / arbitrary metadata and account metadata, nil / empty /
@@ -29,6 +30,23 @@ Theorem C13_roundtrip_row : forall c, codec_ok c -> forall e : entry c,
   tutc c (l_date c (e_log c e)) = l_date c (e_log c e) -> of_row c fixed (to_row c e) = Ok (norm c e).
 Proof. exact of_row_to_row. Qed.
 Print Assumptions C13_roundtrip_row.
+
+(* the stored form is not the text that was written: PostgreSQL's jsonb returns the members of every object in its own
+   order. Reading back does not depend on it: whatever document [j] equals the written one up to the order of object
+   members, at any depth ([jperm]), decodes to the same entry — on the JSON path and on the row path. Together with
+   C13_rehash/C13_chain (which speak about [norm e]) this covers re-verification from the stored rows. *)
+Theorem C13_roundtrip_any_member_order : forall c, codec_ok c -> forall (e : entry c) (j : json),
+  jperm (to_json c e) j -> of_json c fixed j = Ok (norm c e).
+Proof. exact of_json_perm. Qed.
+Print Assumptions C13_roundtrip_any_member_order.
+
+Theorem C13_roundtrip_row_any_member_order : forall c, codec_ok c -> forall (e : entry c) (data : json),
+  tutc c (l_date c (e_log c e)) = l_date c (e_log c e) ->
+  jperm (r_data c (to_row c e)) data ->
+  of_row c fixed {| r_type := r_type c (to_row c e); r_data := data; r_date := r_date c (to_row c e);
+                    r_ik := r_ik c (to_row c e); r_id := r_id c (to_row c e); r_hash := r_hash c (to_row c e) |} = Ok (norm c e).
+Proof. exact of_row_perm. Qed.
+Print Assumptions C13_roundtrip_row_any_member_order.
 
 (* re-verification of one entry: the entry written by ChainLog over [prev] reads back; what is read back carries the
    stored hash and id; and re-chaining its content over the predecessor as read back yields exactly the entry
@@ -82,6 +100,17 @@ Example C13_example :
   list_eqb entry_eqb (map (norm text_codec) es) es = false (* the maps of example_logs are not all key-sorted *) /\
   existsb (fun e => match e_hash text_codec e with Some h => Nat.ltb 200%nat (String.length h) | None => false end) es = true.
 Proof. vm_compute. auto. Qed.
+
+(* jperm is inhabited by genuine reorderings: the data of a delete-metadata log as jsonb returns it (shorter keys first) *)
+Example C13_jperm_example :
+  jperm (payload_json text_codec (PDelMeta text_codec (TTx 7) "k"))
+        (JObj [(k_key, JStr "k"); (k_targetId, JNum 7); (k_targetType, JStr s_TRANSACTION)]).
+Proof.
+  cbn [payload_json target_type target_id_json].
+  eapply jp_obj with (m1 := [(k_targetType, JStr s_TRANSACTION); (k_targetId, JNum 7); (k_key, JStr "k")]).
+  - repeat constructor.
+  - eapply perm_trans; [apply perm_skip, perm_swap|]. eapply perm_trans; [apply perm_swap|]. apply perm_skip, perm_swap.
+Qed.
 
 (* ---- the tree before the repairs (replayable witnesses; corpus/C13/) -------------------------------------------- *)
 (* F-C13a: HydrateLog has no case for DELETE_METADATA: reading such an entry panics on the JSON path and in
